@@ -48,7 +48,7 @@ def all_primary(rp, qp, qid_, params):
     return out
 
 
-def task_lines(recorded, rows, refs, pcount, margin, tag, files=None, params=None):
+def task_lines(recorded, rows, refs, pcount, margin, tag, files=None, params=None, second_pass_only=False, whole=None):
     by_task = {}
     for ev in sorted(recorded, key=lambda e: (e["pid"], e["seq"])):
         if ev.get("task") is None:
@@ -59,8 +59,11 @@ def task_lines(recorded, rows, refs, pcount, margin, tag, files=None, params=Non
         returned[int(row.queryId)] = float(row.confidence)
     lines = []
     for (pid, task), evs in by_task.items():
+        is_fragment = whole is not None and (task[1] != 0 or task[2] != whole.get(task[0]))
+        if second_pass_only and not is_fragment:
+            continue
         rebuilt = False
-        if files and sum(1 for e in evs if e["ev"] == "Primary") != 2 * len(refs):
+        if files and not second_pass_only and sum(1 for e in evs if e["ev"] == "Primary") != 2 * len(refs):
             try:
                 evs = all_primary(files[0], files[1], task[0], params) + [e for e in evs if e["ev"] != "Primary"]
                 rebuilt = True
@@ -83,8 +86,8 @@ def task_lines(recorded, rows, refs, pcount, margin, tag, files=None, params=Non
             elif e["ev"] == "Cands":
                 out.append({"e": "Cands", "n": len(e["cands"])})
         res = {"has": task[0] in returned, "conf": cr[returned[task[0]]] if task[0] in returned else 0}
-        lines.append({"refs": refs, "pcount": pcount, "ev": out, "res": res, "rebuilt": rebuilt,
-                      "tag": dict(tag, query=task[0])})
+        lines.append({"refs": refs, "pcount": pcount, "ev": out, "res": res, "rebuilt": rebuilt, "judge": not second_pass_only,
+                      "tag": dict(tag, query=task[0], fragment=list(task[1:]) if second_pass_only else [])})
     return lines
 
 
@@ -105,6 +108,14 @@ def one_input(args):
                   "p": int(extra.get("-p", 3))}
         lines = task_lines(res["recorded"], res["rows"].rows, refs, int(extra.get("-p", 3)), int(extra.get("-ma", 16000)),
                            {"input": idx, "extra": extra}, files=(rp, qp), params=params)
+        if idx % 2 == 0:
+            # the second pass hands FRAGMENTS of the molecules to the same coordinator: their tasks are replayed as well
+            # (mode 'separate'; what is returned for a fragment is not visible in the run's result and is not judged)
+            res2 = pipecases.run_once(wd, rp, qp, "o2", "separate", extra, record=True)
+            if res2["status"] == "ok":
+                whole = {q["id"]: len(q["x"]) for q in inp["qrys"]}
+                lines += task_lines(res2["recorded"], [], refs, int(extra.get("-p", 3)), int(extra.get("-ma", 16000)),
+                                    {"input": idx, "extra": extra}, second_pass_only=True, whole=whole)
         return {"status": "ok", "lines": lines, "log": ""}
     finally:
         shutil.rmtree(wd, ignore_errors=True)
